@@ -36,6 +36,7 @@ InitSt == [ H     |-> <<>>,   \* handle id -> handle record (see MkH)
             g     |-> <<>>,   \* handle id -> None | Some(Seq(Rat))   gradient stored on an OWNER (per buffer cell)
             gen   |-> <<>>,   \* handle id -> generation number of the gradient array stored on the owner
             ngen  |-> 0,
+            oor   |-> FALSE,  \* some value left the 32-bit-safe range (Rat.OOR): the trace is out_of_model from here on
             track |-> TRUE,   \* graph tracking switch (no_autodiff scopes)
             tsaved |-> <<>>,  \* values of `track` saved by the enclosing no_autodiff scopes
             kf    |-> {},     \* known-finding triggers this history has passed (DESIGN 4.4 / section 7)
@@ -72,7 +73,9 @@ NewBuf(st, ds, const) ==
   LET n == Len(ds)
       vars  == [i \in 1..n |-> IF const THEN 0 ELSE st.nv + i]
       cells == TLCEval([i \in 1..n |-> IF const THEN DC(ds[i].v) ELSE D(ds[i].v, TAdd(ds[i].t, TUnit(vars[i])))])
-  IN [st EXCEPT !.mem = Append(@, cells), !.pv = Append(@, vars), !.nv = IF const THEN @ ELSE @ + n]
+      bad == \E i \in 1..n : Big(cells[i].v) \/ \E k \in DOMAIN cells[i].t : Big(cells[i].t[k])
+  IN [st EXCEPT !.mem = Append(@, cells), !.pv = Append(@, vars), !.nv = IF const THEN @ ELSE @ + n,
+                !.oor = @ \/ bad]
 
 \* ------------------------------------------------------------------ operands
 \* An operand is a tensor handle {h}, a Python scalar {s}, or an inline constant array {arr: [sh, v]}.
@@ -434,7 +437,8 @@ ApplyBackward(st, s) ==
                                                   ELSE IF h \in vis /\ st.H[h].base = 0 THEN None ELSE @[h]],
                         !.gen = [h \in DOMAIN @ |-> IF h \in wr THEN st.ngen + h ELSE @[h]],
                         !.ngen = @ + Len(st.H) + 1]
-  IN ClearNodes(st1, UpAll(st, lr.node))
+      bad == \E h \in wr : \E ci \in 1..Len(st1.g[h].v) : Big(st1.g[h].v[ci])
+  IN ClearNodes([st1 EXCEPT !.oor = @ \/ bad], UpAll(st, lr.node))
 
 \* ------------------------------------------------------------------ projection (what a user can observe)
 \* gradient read through the public `.grad` property
